@@ -156,6 +156,7 @@ def h_fit(flags, nm, conf_kind='open', via_fitter=True):
             "log10/ln are uninterpreted (hash-consed per argument term); no property of them is used except that equal arguments give equal values",
             "Models.read is stubbed (returns the symbolic grid); Extinction.get_av is replaced by an arbitrary real pattern (decided in C14)",
             "divisions assume a non-zero denominator; det != 0 follows from lemma L2 (discharged in this run)",
+            "P0 first: get_log_fluxes == documented transform; once proved, P1-P3 are stated over its outputs and their definitions are left out of the relevance-staged queries (hypotheses only dropped; last stage is the full set)",
         }
         fx = fitfix.Fit()
         ex = C.Explorer(query_timeout_ms=60000)
